@@ -46,7 +46,8 @@ class C12(TalCheck):
     prop = "C12"
     level = "fault_enumeration"
     gen_opts = {"on_error": 0.12, "max_sites": 20, "pipes": 0.3,
-                "prefixes": 0.3, "max_depth": 3, "macros": 0.25, "i18n": 0.1}
+                "prefixes": 0.3, "max_depth": 3, "macros": 0.25, "i18n": 0.1,
+                "entities": 0.25}
 
     def gen(self, ch: Choices, tier: str) -> dict:
         if ch.coin(0.35):
@@ -155,10 +156,23 @@ class C12(TalCheck):
                     at = None
                     kind = "wrong-expression"
                     inner = units[0]
+                    # known finding: attribute values are entity-decoded
+                    # before they are parsed and positions are counted in
+                    # the decoded text, so every entity before the unit
+                    # shifts it left by len(entity)-1 and every entity
+                    # inside it shortens the quoted excerpt by as much
+                    for u in units:
+                        if (u["ent_before"] or u["ent_inside"]) and \
+                                u["line"] == line and \
+                                col == u["col"] - u["ent_before"] and \
+                                len(expr) == len(u["text"]) - u["ent_inside"]:
+                            kind = "entity-drift"
+                            break
                     # classify offset drift precisely (re-sliced excerpts
                     # look plausible but are shifted)
                     for u in units:
-                        if u["line"] == line and len(expr) == len(u["text"]):
+                        if kind != "entity-drift" and u["line"] == line and \
+                                len(expr) == len(u["text"]):
                             kind = "offset-drift"
                             break
                     vs.append(self._v(
